@@ -346,6 +346,35 @@ return da.core.blockdims_from_blockshape(shape, dim_elements)
 """
 
 
+def _is_log_call(st):
+    """logger.debug(...) / logging.info(...) / warnings.warn(...) as a statement."""
+    if not (isinstance(st, ast.Expr) and isinstance(st.value, ast.Call)):
+        return False
+    f = st.value.func
+    return (isinstance(f, ast.Attribute) and isinstance(f.value, ast.Name)
+            and (f.value.id in ('logger', 'logging', 'log', '_logger', 'LOGGER')
+                 or (f.value.id == 'warnings' and f.attr == 'warn')))
+
+
+def _clean(body):
+    """Statements without docstrings and logging calls (recursively in compound statements)."""
+    out = []
+    for st in body:
+        if isinstance(st, ast.Expr) and isinstance(st.value, ast.Constant) and isinstance(st.value.value, str):
+            continue
+        if _is_log_call(st):
+            continue
+        if isinstance(st, ast.FunctionDef):
+            st.body = _clean(st.body)
+        for f in ('body', 'orelse', 'finalbody'):
+            if isinstance(getattr(st, f, None), list) and not isinstance(st, ast.FunctionDef):
+                setattr(st, f, _clean(getattr(st, f)))
+        for h in getattr(st, 'handlers', []):
+            h.body = _clean(h.body)
+        out.append(st)
+    return out
+
+
 def _is_hole(name):
     return isinstance(name, str) and name.startswith('__') and name.endswith('__') and len(name) > 4
 
@@ -455,7 +484,7 @@ def item_generate_chunks(repo, out):
             or [ast.unparse(d) for d in a.defaults] != ['None', 'False', 'None'] or a.vararg or a.kwarg or a.kwonlyargs
             or fn.decorator_list):
         raise TranslateError('generate_chunks: unexpected signature / defaults')
-    body = [s for s in fn.body if not (isinstance(s, ast.Expr) and isinstance(s.value, ast.Constant))]
+    body = _clean(fn.body)
     holes = {}
     _match(body, ast.parse(_GC_TEMPLATE).body, holes, 'generate_chunks')
     fp = [n for n in tree.body if isinstance(n, ast.FunctionDef) and n.name == '_floor_power_of_two']
@@ -561,15 +590,8 @@ return np.full(singleton_shape, success)
 
 
 def _nodoc(body):
-    """Statements without docstrings (also those of nested function definitions)."""
-    out = []
-    for st in body:
-        if isinstance(st, ast.Expr) and isinstance(st.value, ast.Constant) and isinstance(st.value.value, str):
-            continue
-        if isinstance(st, ast.FunctionDef):
-            st.body = _nodoc(st.body)
-        out.append(st)
-    return out
+    """Statements without docstrings and logging calls (also those of nested statements and function definitions)."""
+    return _clean(body)
 
 
 def _module_func(tree, name):
@@ -703,31 +725,6 @@ else:
 
 # ---------------------------------------------------------------------------------------------------
 # S3 object URL assembly: make_url = _normalise_bucket_name(urljoin(store URL, quote(relative path))) and its callers
-
-def _is_log_call(st):
-    """logger.debug(...) / logging.info(...) / warnings.warn(...) as a statement."""
-    if not (isinstance(st, ast.Expr) and isinstance(st.value, ast.Call)):
-        return False
-    f = st.value.func
-    return (isinstance(f, ast.Attribute) and isinstance(f.value, ast.Name)
-            and (f.value.id in ('logger', 'logging', 'log', '_logger', 'LOGGER')
-                 or (f.value.id == 'warnings' and f.attr == 'warn')))
-
-
-def _clean(body):
-    """Statements without docstrings and logging calls (recursively in compound statements)."""
-    out = []
-    for st in _nodoc(body):
-        if _is_log_call(st):
-            continue
-        for f in ('body', 'orelse', 'finalbody'):
-            if isinstance(getattr(st, f, None), list) and not isinstance(st, ast.FunctionDef):
-                setattr(st, f, _clean(getattr(st, f)))
-        for h in getattr(st, 'handlers', []):
-            h.body = _clean(h.body)
-        out.append(st)
-    return out
-
 
 _MAKE_URL_TEMPLATE = """
 __Q__ = to_str(urllib.parse.quote(relative_path))
